@@ -100,7 +100,7 @@ def concatenate(fields, target={}, resources=None):
                     new_resources.append(resource)
                 else:
                     num_concatenated += 1
-        if not suffix:
+        if not prefix and not suffix:
             new_resources.append(target)
 
         package.pkg.descriptor['resources'] = new_resources
